@@ -86,6 +86,16 @@ impl<'a> IndexBuilder<'a> {
         self.data.shrink_to_fit();
         trie_entries.sort_by(|(a, _), (b, _)| a.cmp(b));
 
+        if trie_entries.is_empty() {
+            // the trie builder can not handle an empty key set (no entry is indexed)
+            return Err(DicBuildError {
+                file: "<trie>".to_owned(),
+                line: 0,
+                cause: BuildFailure::TrieBuildFailure,
+            }
+            .into());
+        }
+
         let trie = yada::builder::DoubleArrayBuilder::build(&trie_entries);
         match trie {
             Some(t) => Ok(t),
